@@ -68,6 +68,9 @@ def main(argv: list[str] | None = None) -> int:
 
             res.selftest = selftest.run(prop, res, seed=seed)
         rc = report.finish(res, started=started, seed=seed, write=not args.no_write)
+        for sk in (res.selftest or {}).get("skipped", []):
+            # informational: a variant whose anchor/patch no longer matches the tree decides nothing (never a pass)
+            print(f"SELF-TEST-SKIPPED {prop} {sk['id']}: {str(sk.get('why'))[:160]}")
         if res.selftest and res.selftest.get("failures"):
             for line in res.selftest["failures"]:
                 print(f"ANALYSIS-ERROR self-test: {line}")
